@@ -216,6 +216,22 @@ def run(ctx):
                     t = norm(s.test).replace(" ", "")
                     okany = any(t == "notnp.any(%s)" % d for d in down) or \
                         any(t == "not%s.any()" % d for d in down)
+                    # the same test with the membership call written inline
+                    tt = s.test
+                    if not okany and isinstance(tt, ast.UnaryOp) and \
+                            isinstance(tt.op, ast.Not) and \
+                            isinstance(tt.operand, ast.Call):
+                        c_ = tt.operand
+                        arg_ = None
+                        if norm(c_.func) in ("np.any", "numpy.any", "any") \
+                                and len(c_.args) == 1 and not c_.keywords:
+                            arg_ = c_.args[0]
+                        elif isinstance(c_.func, ast.Attribute) and \
+                                c_.func.attr == "any" and not c_.args:
+                            arg_ = c_.func.value
+                        okany = isinstance(arg_, ast.Call) and \
+                            isinstance(arg_.func, ast.Attribute) and \
+                            arg_.func.attr == "sky_within"
                     ctx.check("C11-R3", fi, "skip iff no pixel inside: " +
                               norm(s.test), okany,
                               "an island is kept when AT LEAST ONE of its "
